@@ -45,7 +45,7 @@ REQUIRED_PROBES = {"quick": ["observer_before_last_mutation", "raw_value_object_
                              "caseless_duplicate_name", "permutation_moved_something", "amz_in_history",
                              "amz_added_two_or_more", "subtree_from_ical", "zoned_dateutil", "zoned_pytz",
                              "zoned_zoneinfo", "list_valued_parameter", "setter_barrier", "noise_parse", "noise_serialise",
-                             "mixed_zone_list"]}
+                             "mixed_zone_list", "params_mutated_in_place", "property_deleted"]}
 REQUIRED_PROBES["thorough"] = REQUIRED_PROBES["quick"]
 
 KINDS = ["VEVENT", "VTODO", "VJOURNAL", "VFREEBUSY", "VTIMEZONE", "VALARM", "X-COMP"]
@@ -216,7 +216,8 @@ def generate(rng, cfg):
     marker = 0
     used_amz = False
     swarm = {"setters": rng.random() < 0.6, "raw": rng.random() < 0.6, "amz": rng.random() < 0.5,
-             "from_ical": rng.random() < 0.4, "noise": rng.random() < 0.5, "setitem": rng.random() < 0.5}
+             "from_ical": rng.random() < 0.4, "noise": rng.random() < 0.5, "setitem": rng.random() < 0.5,
+             "mutate": rng.random() < 0.5}
     while len(trace) < nsteps:
         r = rng.random()
         if r < 0.18 and len(comps) < 12:
@@ -228,7 +229,8 @@ def generate(rng, cfg):
             names_used[nid] = {}
             trace.append([0, "new_comp", {"id": nid, "kind": kind}])
             # attach now or later
-            trace.append([0, "attach", {"parent": parent, "child": nid, "_late": rng.random() < 0.4}])
+            trace.append([0, "attach", {"parent": parent, "child": nid, "_late": rng.random() < 0.4,
+                                        "direct": rng.random() < 0.25}])
             nid += 1
             continue
         if r < 0.22 and swarm["from_ical"] and len(comps) < 12:
@@ -259,6 +261,20 @@ def generate(rng, cfg):
             c = rng.choice(sorted(comps))
             trace.append([0, "observe", {"comp": c, "sorted": rng.random() < 0.7}])
             continue
+        if r < 0.46 and swarm["mutate"]:
+            # mutation routes other than add(): edit a stored value's parameters in place, delete a property
+            cands = [k for k in sorted(comps) if comps[k] != "PARSED" and names_used.get(k)]
+            if cands:
+                c = rng.choice(cands)
+                U = rng.choice(sorted(names_used[c]))
+                if rng.random() < 0.6:
+                    trace.append([0, "mutate_params", {"comp": c, "name": U, "param": f"X-MUT{len(trace)}",
+                                                       "v": f"v{len(trace)}"}])
+                else:
+                    trace.append([0, "del_prop", {"comp": c, "name": rng.choice([U, U.lower(), U.title()]),
+                                                  "how": rng.choice(["pop", "delitem"])}])
+                    names_used[c].pop(U, None)
+                continue
         # property insertion
         c = rng.choice([k for k in sorted(comps) if comps[k] != "PARSED"] or [0])
         kind = comps[c]
@@ -329,7 +345,7 @@ def abstract_sig(run):
 # ---------------------------------------------------------------------------
 # permutations of the insertion history
 
-BARRIERS = ("setattr", "amz", "from_ical")
+BARRIERS = ("setattr", "amz", "from_ical", "mutate_params", "del_prop")
 
 
 def permute(trace, seed):
@@ -399,6 +415,7 @@ class Built:
         self.model = {}     # comp id -> {"kind", "names": ordered {UPPER: [markers or None]}, "children": [ids]}
         self.attached = set()
         self.observations = []
+        self.mutated = []    # unique parameter names written into stored values after the fact
         self.error = None
 
 
@@ -467,7 +484,10 @@ def run_variant(trace, res, with_observers, tag, stepbase=0, checks=True):
                 if p is None or ch is None or a["child"] in B.attached:
                     res.skipped += 1
                     continue
-                p.add_component(ch)
+                if a.get("direct"):
+                    p.subcomponents.append(ch)      # the list is public: another way to attach
+                else:
+                    p.add_component(ch)
                 B.attached.add(a["child"])
                 B.model[a["parent"]]["children"].append(a["child"])
             elif op in ("add", "setitem"):
@@ -516,6 +536,37 @@ def run_variant(trace, res, with_observers, tag, stepbase=0, checks=True):
                             res.probe({"du": "zoned_dateutil", "pytz": "zoned_pytz", "zi": "zoned_zoneinfo"}[z])
                     if any(p[1][0] == "list" for p in a["params"]):
                         res.probe("list_valued_parameter")
+            elif op == "mutate_params":
+                comp = B.objs.get(a["comp"])
+                m = B.model.get(a["comp"])
+                if comp is None or a["name"] not in m["names"]:
+                    res.skipped += 1
+                    continue
+                value = comp[a["name"]]
+                if isinstance(value, list):
+                    value = value[-1]
+                if not hasattr(value, "params"):
+                    res.skipped += 1
+                    continue
+                value.params[a["param"]] = a["v"]
+                B.mutated.append(a["param"])
+                if checks:
+                    res.probe("params_mutated_in_place")
+            elif op == "del_prop":
+                comp = B.objs.get(a["comp"])
+                m = B.model.get(a["comp"])
+                U = a["name"].upper()
+                if comp is None or U not in m["names"]:
+                    res.skipped += 1
+                    continue
+                if a["how"] == "pop":
+                    comp.pop(a["name"])
+                else:
+                    del comp[a["name"]]
+                m["names"].pop(U, None)
+                m.get("lists", {}).pop(U, None)
+                if checks:
+                    res.probe("property_deleted")
             elif op == "setattr":
                 comp = B.objs.get(a["comp"])
                 if comp is None:
@@ -740,6 +791,11 @@ def _check_wire(res, stepno, bs, bu, B):
     import icalendar.cal as C
     canon_of = {"VEVENT": C.Event.canonical_order, "VCALENDAR": C.Calendar.canonical_order,
                 "VTIMEZONE": C.Timezone.canonical_order}
+    for pname in B.mutated:
+        n = bs.upper().count(b";" + pname.upper().encode() + b"=")
+        if n > 1:
+            res.violate("C10/purity/parameters-shared-between-values", stepno,
+                        f"parameter {pname} written into one value appears {n} times on the wire")
     for data, sorted_flag in ((bs, True), (bu, False)):
         tree = wire_tree(data)
         if tree is None or len(tree[2]) != 1:
